@@ -93,11 +93,29 @@ func genC10(h *H) {
 	for it := 0; it <= 16; it++ {
 		h.doLine("nonce-iter", "nonce "+hx(k)+" "+hx(hs)+" - - "+strconv.Itoa(it))
 	}
+	// keys with structure: aligned 32-bit words that are zero or equal to the pad constants (0x36.., 0x5c..: the
+	// XOR into the pad gives zero), all-zero keys, so that re-keying after a longer / denser key shows stale pad words
+	structKey := func(klen int) []byte {
+		k := h.randBytes(klen)
+		if h.rng.Intn(3) == 0 {
+			return k
+		}
+		for w := 0; w+4 <= klen; w += 4 {
+			switch h.rng.Intn(5) {
+			case 0, 1:
+				k[w], k[w+1], k[w+2], k[w+3] = 0, 0, 0, 0
+			case 2:
+				c := []byte{0x36, 0x5c}[h.rng.Intn(2)]
+				k[w], k[w+1], k[w+2], k[w+3] = c, c, c, c
+			}
+		}
+		return k
+	}
 	// the HMAC object under random operation sequences
 	for i := 0; i < 40*h.budget; i++ {
 		var ops []string
 		klen := []int{0, 1, 32, 63, 64, 65, 100}[h.rng.Intn(7)]
-		ops = append(ops, "new:"+hx(h.randBytes(klen)))
+		ops = append(ops, "new:"+hx(structKey(klen)))
 		n := 2 + h.rng.Intn(8)
 		for j := 0; j < n; j++ {
 			switch h.rng.Intn(5) {
@@ -108,7 +126,7 @@ func genC10(h *H) {
 			case 3:
 				ops = append(ops, "reset")
 			case 4:
-				ops = append(ops, "resetkey:"+hx(h.randBytes([]int{0, 32, 64, 65, 70}[h.rng.Intn(5)])))
+				ops = append(ops, "resetkey:"+hx(structKey([]int{0, 4, 31, 32, 64, 65, 70}[h.rng.Intn(7)])))
 			}
 		}
 		ops = append(ops, "sum")
